@@ -44,6 +44,8 @@ def replay_selection(ck, cpath, tag, only=None, reps=8):
 
 
 def sig_trace(ev, prefix):
+    if ev["ev"] == "dyn":
+        return f"trace:dyn:{ev['res'].get('k')}:overflow={ev.get('overflow')}"
     if ev["ev"] == "nested":
         return f"trace:nested:{ev['res'].get('k')}:erased={ev.get('erased')}"
     c = ev["case"]
